@@ -61,7 +61,8 @@ RULE = ('psd: every shape (m,n) with 1<=m,n<=S (S=8 quick, 12 thorough; all pari
         'into bandlimited_rms; methods on Interferogram data of every dtype / layout; peak: '
         'on-grid cosine of every admissible integer frequency pair; bands: edges drawn strictly between distinct sample '
         'radii, plus an edge exactly on a sample radius, as frequencies, as periods, one edge of each kind, positionally, '
-        'and no edge at all, float32 r/psd, under both NumPy configurations; 1-D r/psd of 1..14 (40) samples on |f|, signed '
+        'and no edge at all, float32 r/psd, under both NumPy configurations; degenerate bands in every band case: inverted (flow > fhigh), '
+        'entirely above r.max(), negative lower edge, infinite / oversized upper edge, edges as np.float64 / 0-d arrays (value and Lean model); 1-D r/psd of 1..14 (40) samples on |f|, signed '
         'and one-sided axes; methods: dense maps 3..20 and apertured maps (mask -> fill(0)) of 26..48 samples, float32/int32 '
         'data, band as frequencies / periods / one of each / none, TIS for scalar, 0-d, 1-D, 2-D and default angles; synth: '
         'abc_psd / ab_psd / a user psd_fcn x sizes 3..40 x masks (none, disc, random boolean, 0-1 int, 0.-1. float, single '
@@ -1952,7 +1953,10 @@ MANIFEST_ENTRY = {
              '1-D forms) is monotone under widening, satisfies inclusion-exclusion for closed bands and is additive WHEN THE COMMON EDGE '
              'IS NOT A SAMPLE RADIUS (with closed bands the unrestricted sentence of the property is false on an edge sample: '
              'band_additive_general is the exact statement); these are also stated for P := the model PSD with the per-axis steps '
-             '(band_monotone_psd, band_additive_psd); full band: |sum((hw)^2)/sum(w^2) - brms^2_full| <= weight of the outermost rows/'
+             '(band_monotone_psd, band_additive_psd); the value depends on the band only through which samples it contains (band_congr), so an inverted band '
+             'or a band above every sample radius gives 0 (band_inverted_zero, band_beyond_samples_zero) and every lower edge <= all radii / upper edge >= all '
+             'radii — the defaults 0 and r.max(), negative or infinite edges — gives the same, full-band, value (band_defaults_full, band_upper_default, '
+             'band_lower_default; all exercised on the real code and the model: item band_degenerate); full band: |sum((hw)^2)/sum(w^2) - brms^2_full| <= weight of the outermost rows/'
              'columns for the model PSD with the steps measured from r as the code measures them, for EVERY shape m,n >= 1 (1xN / Nx1: '
              'the code returns 0 and the bound is an equality); rms(z*rho/rms z) = rho over any non-empty valid set. '
              'TRANSLATED from the source on every run (psd(): last-definition dataflow — rebinding, /=, reordering, renaming are '
